@@ -70,6 +70,8 @@ def make_ctx(tier):
 def run(ctx, tier):
     ctx.rule("W4", "(shared with C19.I2) url and url_aggregator copies of the protocol setter's state-override block agree: same refusals, same default-port elision")
     ctx.rule("W5", "the IPv6 parsers of url and url_aggregator are statement-for-statement identical up to the storage epilogue")
+    ctx.rule("W7", "ada::url::get_components() computes, on every path, the offsets of the layout url_aggregator maintains")
+    ctx.rule("W6", "the setters of the two URL types normalise their input by the same steps in the same order")
     ctx.rule("W1", "twin implementations have the same validation skeleton")
     ctx.rule("W2", "both parser instantiations write the same components in every state")
     ctx.rule("W3", "byte comparisons deciding an in-place shortcut are equality tests")
@@ -79,6 +81,9 @@ def run(ctx, tier):
         ctx.set_config(name)
         check(ctx, fxs[name])
         check_ipv6_twins(ctx, fxs[name])
+        check_setter_steps(ctx, fxs[name])
+        from rules import c04_layout
+        c04_layout.check(ctx, fxs[name], "W7")
         from rules import c19
         c19.check_scheme_copies(ctx, fxs[name], "W4")
 
@@ -161,6 +166,56 @@ def check_ipv6_twins(ctx, fx, rule="W5"):
               "parses to different addresses in the two URL types" % "; ".join("`%s`" % (x[1] or x[0]) for x in bad[:3]),
               where=fx.fn1("ada::url_aggregator::parse_ipv6")["loc"].replace("/repo/", ""))
     ctx.floor(rule, same, 80, "identical statements of the IPv6 parsers")
+
+
+NORMALISERS = ("ada::helpers::", "ada::unicode::", "ada::checkers::", "ada::scheme::", "ada::idna::")
+# how the value is stored differs by design (the aggregator encodes into its buffer, url into a string member)
+STORAGE_STEPS = {"percent_encode", "percent_encode_index", "substring", "concat", "overlaps", "inner_concat"}
+SETTERS = ("set_hash", "set_search", "set_pathname", "set_username", "set_password", "set_port", "set_protocol", "set_href",
+           "set_host_or_hostname")
+
+
+def setter_steps(f):
+    """Input-normalisation events of a setter in source order: calls to the shared helpers (strip tab/newline, strip trailing
+    spaces, find the host delimiter, ...) and tests against character literals (the leading '#', '?', ':' a setter drops)."""
+    items = []
+    for b in f["blocks"]:
+        units = [(st.get("off") or 0, list(X.stmt_nodes(st, local=True)), st.get("macros")) for st in b["stmts"]]
+        c = C.term_cond(b)
+        if c is not None:
+            units.append((b["term"].get("cond_off") or 0, list(X.walk(c, local=True)), b["term"].get("macros")))
+        for off, nodes, macros in units:
+            if any(m.startswith("ADA_ASSERT") or m == "ada_log" for m in (macros or [])):
+                continue
+            for n in nodes:
+                if n.get("k") == "call" and (n.get("qname") or "").startswith(NORMALISERS):
+                    nm = n["qname"].split("::")[-1]
+                    if nm not in STORAGE_STEPS:
+                        items.append((off, nm))
+                if n.get("k") == "lit" and n.get("chr"):
+                    items.append((off, "test '%s'" % chr(n["v"])))
+    items.sort()
+    return [x[1] for x in items]
+
+
+def check_setter_steps(ctx, fx):
+    n = 0
+    for nm in SETTERS:
+        for a in fx.fns("ada::url::" + nm, must=False):
+            if "blocks" not in a:
+                continue
+            bs = [g for g in fx.fns("ada::url_aggregator::" + nm, must=False)
+                  if "blocks" in g and ("<true>" in g["key"]) == ("<true>" in a["key"])]
+            if not bs:
+                continue
+            ea, eb = setter_steps(a), setter_steps(bs[0])
+            n += 1
+            ctx.check("W6", "%s%s: same normalisation steps in both types" % (nm, "<true>" if "<true>" in a["key"] else ""), ea == eb,
+                      " -> ".join(ea) or "(none)",
+                      "ada::url::%s does [%s], ada::url_aggregator::%s does [%s]: the same argument is normalised differently (a step "
+                      "missing, added or applied in another order), so the two types store different values for it"
+                      % (nm, " -> ".join(ea), nm, " -> ".join(eb)), where=a["loc"].replace("/repo/", ""))
+    ctx.floor("W6", n, 9, "setter pairs")
 
 
 def is_failing_return(s):
